@@ -14,6 +14,8 @@ def describe(ck):
     ck.rule("R15a", "write_msa_msf: the length printed after 'MSF:' and every 'Len:' has the same source as the bound that ends row emission")
     ck.rule("R15b", "write_msa_msf: every GCG checksum is taken over that same span of the row it is printed for; the overall check sums all rows")
     ck.rule("R15c", "write_msa_msf: every banner (!!AA/!!NA) and 'Type:' (P/N) choice, evaluated in the two (biotype, L) states kalign_run leaves behind, labels protein as protein and nucleotide as nucleic")
+    ck.rule("R15f", "the GCG checksum uses the position weights (i % 57)+1, folds residues to upper case and reduces mod 10000")
+    ck.rule("R15g", "Clustal/MSF output lines are keyed by (block, position of the row in the msa | numseq for the separator | negative for headers)")
     ck.rule("R15d", "the GCG checksum accumulators are reduced in every iteration (or are 64 bit): no overflow for long rows")
     ck.rule("R15e", "row emission covers exactly [0, alnlen): FASTA prints every column in a counted loop; the block writers emit one residue per cursor step and leave both loops exactly on cursor == alnlen (other loop shapes: no verdict)")
     ck.not_decided += ["wrapping at 60 columns and block completeness (loop arithmetic over run-time widths)",
@@ -244,6 +246,8 @@ def run(ck, progs):
         ck.attempt(r15, ck, prog)
         ck.attempt(r15d, ck, prog)
         ck.attempt(r15e, ck, prog)
+        ck.attempt(r15f, ck, prog)
+        ck.attempt(r15g, ck, prog)
     return ("Reaching-definition agreement inside write_msa_msf between the header's declared length, the checksum spans "
             "and the bound that terminates row emission; pairing of Name: and Check: on the same sequence index; the "
             "predicate that selects banner and Type:.")
@@ -359,3 +363,69 @@ def r15e(ck, prog):
                          "%s does not stop emitting exactly when the cursor reaches alnlen (inner test before store: %s, block loop "
                          "break on f==alnlen: %s, f++ right after the store: %s): rows are cut short or padded with an empty block" % (
                              name, pre, brk, inc_after), prog.config)
+
+
+def r15f(ck, prog):
+    """ingredients of the GCG checksum: position weight (i % 57) + 1, case-folded residue, reduction mod 10000"""
+    n = 0
+    for F in prog.lib_functions():
+        if not F.name.startswith("GCGchecksum"):
+            continue
+        n += 1
+        consts = {x.cv for x in F.body.find("IntegerLiteral") if x.cv is not None}
+        up = [c for c in F.body.calls("toupper")] + [x for x in F.body.walk() if x.mac and "toupper" in x.mac and x.k == "CallExpr"]
+        folded = [c for c in up if any(r.d.get("dk") == "Parm" for a in c.args for r in a.find("DeclRefExpr"))]
+        where = site(prog, F, "formula")
+        ck.inst("R15f", where, "%s: constants %s, case folding of the row: %s" % (F.name, sorted(consts & {57, 1, 10000}), bool(folded)), prog.config)
+        if not {57, 10000} <= consts:
+            ck.violation("R15f", "R15f/%s/constants" % F.name, where,
+                         "%s does not use the GCG constants 57 and 10000 (found %s)" % (F.name, sorted(consts)), prog.config)
+        if not folded:
+            ck.violation("R15f", "R15f/%s/case" % F.name, where,
+                         "%s sums the residues without folding them to upper case: rows with lower-case letters get a checksum that is "
+                         "not the GCG checksum of the row" % F.name, prog.config)
+    ck.floor("R15f", n, 1, "GCG checksum functions")
+
+
+def r15g(ck, prog):
+    """output lines are ordered by (block, seq_id): sequence rows must carry their position in the msa as seq_id, the
+    block separator the value numseq, header lines negative ids - anything else lets rows sort behind the separator"""
+    n = 0
+    for name in ("write_msa_clu", "write_msa_msf"):
+        F = prog.fn(name)
+        for a in F.body.find("BinaryOperator"):
+            if a.d["op"] != "=":
+                continue
+            l = a.kids[0].strip()
+            if not (l.k == "MemberExpr" and l.d.get("field") == "seq_id" and l.d.get("rec") == "out_line"):
+                continue
+            n += 1
+            r = a.kids[1].strip(casts=True)
+            where = site(prog, a, "seq_id")
+            loops = [x for x in a.ancestors() if x.k == "ForStmt"]
+            from ..affine import loop_range
+            ok = False
+            what = r.text()
+            if r.cv is not None and r.cv < 0:
+                ok = True
+            elif r.k == "MemberExpr" and r.d.get("field") == "numseq":
+                ok = True
+            elif r.k == "DeclRefExpr":
+                for lp in loops:
+                    rg = loop_range(lp)
+                    if rg and rg[0] == r.text() and rg[1].is_const() and rg[1].c == 0 and list(rg[2].t) == ["msa->numseq"]:
+                        ok = True
+                if not ok:
+                    # header counter: a local initialised to a negative value and only incremented
+                    from ..util import local_defs
+                    defs = local_defs(F, r.d["did"])
+                    inits = [x for x, nn in defs if x is not None]
+                    if inits and all(any(k.k == "UnaryOperator" and k.d["op"] == "-" for k in x.walk()) or (x.cv is not None and x.cv < 0) for x in inits):
+                        ok = True
+            ck.inst("R15g", where, "%s: out_line.seq_id = %s" % (name, what), prog.config)
+            if not ok:
+                ck.violation("R15g", "R15g/%s/seq_id" % name, where,
+                             "%s orders an output line by %s: rows must be keyed by their position 0..numseq-1 in the msa (the block "
+                             "separator is keyed numseq); any other key can sort a row behind the separator of its block" % (name, what),
+                             prog.config)
+    ck.floor("R15g", n, 8, "line ordering keys")
